@@ -31,7 +31,7 @@ def configs(tier):
         shapes = [(2, 2, 0), (2, 2, 1), (2, 3, 1), (1, 4, 0), (1, 4, 3), (1, 8, 1), (1, 3, 2), (1, 5, 2), (1, 2, 3), (1, 4, 1)]
     else:
         shapes = [(1, d, p) for d in (2, 3, 4, 5, 8) for p in (0, 1, 2, 3)]
-        shapes += [(2, d, p) for d in (2, 3) for p in (0, 1, 2, 3)] + [(2, 4, 0), (2, 4, 1), (2, 4, 2), (3, 2, 0), (3, 2, 1), (3, 3, 0), (1, 12, 1), (1, 16, 0)]
+        shapes += [(2, d, p) for d in (2, 3) for p in (0, 1, 2, 3)] + [(2, 4, 0), (2, 4, 1), (2, 4, 2), (3, 2, 0), (3, 2, 1), (3, 3, 0), (1, 12, 1), (1, 10, 2)]
     return [dict(width=w, depth=d, pretrigger=p) for w, d, p in shapes]
 
 
